@@ -17,6 +17,7 @@ PROP = dict(
                        "Comdex.C05.found_price_in_spread", "Comdex.C05.found_price_iff_crossing",
                        "Comdex.C05.found_price_amounts_positive", "Comdex.C05.found_price_unmatchable_counterexample",
                        "Comdex.C05.limit_respected_first_batch", "Comdex.C05.price_uniform_first_batch",
+                       "Comdex.C05.limit_respected_first_batch_pools",
                        "Comdex.C05.base_conserved_iff_lossless", "Comdex.C05.base_conserved_iff_lossless_single",
                        "Comdex.C05.distribution_exact_iff_lossless",
                        "Comdex.C05.order_within_amount", "Comdex.C05.order_within_amount_after_batch",
@@ -55,7 +56,8 @@ PROP = dict(
                  "prices are positive; order states are well-formed (0 <= paid, 0 <= open <= amount, the remaining offer coin covers "
                  "what MatchableAmount allows: buy paid <= offer, sell paid + open <= offer) — what NewUserOrder/NewPoolOrder establish",
                  "FindMatchPrice theorems: order prices are ticks of the precision used (OnGrid), 10^prec < 2^300; with pool curves in the "
-                 "view (MultipleOrderViews) the first-batch price is still an input of the model",
+                 "view (MultipleOrderViews) the price is modelled and compared bit for bit, the found_price_* theorems cover the "
+                 "order-book view only",
                  "keeper-level theorems (order_within_amount*): one pair without pools; limit, market and MM orders (no cancel messages, "
                  "no bank transfers and swap fees); the price stored for an order is a positive grid tick (PlaceOk / GridPrice: proved "
                  "for limit orders of both directions with lowestTick <= price <= highestTick, for market orders when last*(1+-ratio) "
@@ -95,5 +97,5 @@ META = dict(
          "coin, or trades worse than its limit; the limit-order price fitting is proved for both directions.",
     note="Trusted: Lean kernel, Base/Dec.lean (differentially tested), the hand-written model as far as the correspondence run exercises "
          "it, distinct order objects, no 315-bit overflow. Ranged pools: non-negative virtual reserves are a hypothesis (monitored); "
-         "pool curves inside FindMatchPrice's view are not modelled.",
+         "with pool curves in FindMatchPrice's view the price is compared, not covered by the found_price theorems.",
 )
